@@ -39,7 +39,7 @@ type TaintCfg struct {
 type Taint struct {
 	cfg      TaintCfg
 	objs     map[types.Object]bool
-	litRet   map[*ir.Func]bool        // literal returns a tainted value
+	litRet   map[*ir.Func]bool         // literal returns a tainted value
 	closures map[types.Object]*ir.Func // local variable → literal bound to it
 	funcs    []*ir.Func
 	changed  bool
